@@ -19,6 +19,11 @@ pub enum Site {
     CatchAfterStart = 3,
     /// `catch_panic`: after `catch_unwind` returned, before the level is restored.
     CatchAfterUnwind = 4,
+    /// `panic_catcher_set_hook`: flag read as unset, installation lock not yet requested.
+    SetHookBeforeLock = 5,
+    /// `panic_catcher_set_hook`: the installation lock is held by another thread
+    /// (the caller cannot make progress until that thread runs).
+    SetHookLockWait = 6,
 }
 
 /// Callbacks supplied by the harness.
